@@ -851,4 +851,94 @@ theorem unifyCtor_post {rec} (hrec : RecOk rec) {σ l r res} (hW : WF σ)
     · rename_i hc; simp at hc; subst hc; cases h; exact post_ok_leaf hW rfl
   · split at h <;> (cases h; exact post_fail hW)
 
+
+theorem eqv_var_of {σ a b x f g} (h1 : normF f σ (.tvar a) = some x) (h2 : normF g σ (.tvar b) = some x) :
+    Eqv σ (.tvar a) (.tvar b) := ⟨f, g, x, x, h1, h2, agree_refl x⟩
+
+theorem redirect_post {σ : Store} {nr old new} (hW : WF σ) (ho : UnboundRoot σ old) (hn : UnboundRoot σ new)
+    (hne : old ≠ new) :
+    Post σ (.tvar old) (.tvar new) (none, σ.redirect nr old new none) ∧
+    Post σ (.tvar new) (.tvar old) (none, σ.redirect nr old new none) := by
+  have e := redirect_eq (nr := nr) ho hn hne
+  exact ⟨⟨redirect_wf hW hn hne, redirect_ext hW ho hn, fun _ => eqv_var_of e.1 e.2⟩,
+         ⟨redirect_wf hW hn hne, redirect_ext hW ho hn, fun _ => eqv_var_of e.2 e.1⟩⟩
+
+theorem varVarArm_post {σ a b res} (hW : WF σ) (ha : UnboundRoot σ a) (hb : UnboundRoot σ b)
+    (h : varVarArm σ a b = some res) : Post σ (.tvar a) (.tvar b) res := by
+  unfold varVarArm Store.unifyVarVar at h
+  simp only [ha.1, hb.1] at h
+  by_cases hab : a = b
+  · subst hab
+    simp [ok] at h; subst h
+    have : normF 1 σ (.tvar a) = some (.tvar a) := by rw [normF_tvar]; simp [ha.1, ha.2]
+    exact ⟨hW, Ext.refl hW, fun _ => eqv_var_of this this⟩
+  · simp only [hab, if_false, ha.2, hb.2, combine] at h
+    unfold Store.unifyRoots at h
+    split at h
+    · simp [ok] at h; subst h; exact (redirect_post hW hb ha (Ne.symm hab)).2
+    · split at h
+      · simp [ok] at h; subst h; exact (redirect_post hW ha hb hab).1
+      · simp [ok] at h; subst h; exact (redirect_post hW ha hb hab).1
+
+theorem bindArm_post {σ a t res k} (hW : WF σ) (ha : UnboundRoot σ a) (ht : normF k σ t = some t)
+    (h : bindArm σ a t = some res) :
+    WF res.2 ∧ Ext σ res.2 ∧ (res.1 = none → Eqv res.2 (.tvar a) t ∧ Eqv res.2 t (.tvar a)) := by
+  unfold bindArm at h
+  split at h
+  · cases h; exact ⟨hW, Ext.refl hW, fun hn => by cases hn⟩
+  · rename_i ho
+    simp at ho
+    rw [unifyVarValue_unbound ha] at h
+    simp [ok] at h; subst h
+    have e := bind_eq hW ha ht ho
+    exact ⟨bind_wf hW, bind_ext hW ha ht ho,
+      fun _ => ⟨⟨_, _, t, t, e.1, e.2, agree_refl t⟩, ⟨_, _, t, t, e.2, e.1, agree_refl t⟩⟩⟩
+
+theorem unifyNorm_post {rec} (hrec : RecOk rec) {σ l r ln rn res f g} (hW : WF σ)
+    (hl : normF f σ l = some ln) (hr : normF g σ r = some rn)
+    (h : unifyNorm rec σ ln rn = some res) : Post σ ln rn res := by
+  have fl := normF_idem hW _ _ _ hl
+  have fr := normF_idem hW _ _ _ hr
+  unfold unifyNorm at h
+  split at h
+  · rename_i a
+    have ha : UnboundRoot σ a := normF_unbound hW _ _ _ a hl (by simp [occursOk])
+    split at h
+    · rename_i b
+      have hb : UnboundRoot σ b := normF_unbound hW _ _ _ b hr (by simp [occursOk])
+      exact varVarArm_post hW ha hb h
+    · obtain ⟨w, e, q⟩ := bindArm_post hW ha fr h
+      exact ⟨w, e, fun hn => (q hn).1⟩
+  · split at h
+    · rename_i b
+      have hb : UnboundRoot σ b := normF_unbound hW _ _ _ b hr (by simp [occursOk])
+      obtain ⟨w, e, q⟩ := bindArm_post hW hb fl h
+      exact ⟨w, e, fun hn => (q hn).2⟩
+    · exact unifyCtor_post hrec hW h
+
+theorem Eqv.of_ext_norm {σ σ' l r ln rn f g} (hE : Ext σ σ') (hl : normF f σ l = some ln)
+    (hr : normF g σ r = some rn) (h : Eqv σ' ln rn) : Eqv σ' l r := by
+  obtain ⟨K, H⟩ := hE
+  obtain ⟨x, hx1, hx2⟩ := H _ _ _ hl
+  obtain ⟨y, hy1, hy2⟩ := H _ _ _ hr
+  obtain ⟨f', g', x0, y0, hx0, hy0, ha⟩ := h
+  cases normF_functional hx0 hx2
+  cases normF_functional hy0 hy2
+  exact ⟨_, _, _, _, hx1, hy1, ha⟩
+
+/-- the invariant of every call of `unify` (any fuel, any outcome) -/
+theorem unifyF_post : ∀ f, RecOk (unifyF f)
+  | 0, _, _, _, _, _, h => by simp [unifyF] at h
+  | f+1, σ, l, r, res, hW, h => by
+    simp only [unifyF] at h
+    cases hl : normF f σ l with
+    | none => simp [hl] at h
+    | some ln =>
+      cases hr : normF f σ r with
+      | none => simp [hl, hr] at h
+      | some rn =>
+        simp only [hl, hr] at h
+        have P := unifyNorm_post (unifyF_post f) hW hl hr h
+        exact ⟨P.wf, P.ext, fun hn => Eqv.of_ext_norm P.ext hl hr (P.eqv hn)⟩
+
 end Goml.Unify
